@@ -4,6 +4,8 @@ import (
 	"encoding/json"
 	"encoding/xml"
 	"fmt"
+	"io"
+	"net"
 	"os"
 	"path/filepath"
 	"sort"
@@ -709,6 +711,45 @@ func c17HTTP(c *core.Ctx) []linLine {
 		c.Logf("after-restart alternating users: %d probes, %d not accepted", len(l1.H)+len(l2.H), nbad)
 		out = append(out, l1, l2)
 		c.Eval("http-after-restart")
+	}
+	// a secret is replaced while a streaming upload of that account is in flight: whatever
+	// happens to the upload, afterwards only the new secret is accepted
+	for i := 0; i < c.Pick(3, 20); i++ {
+		id := fmt.Sprintf("s%02d", i)
+		acc := iamAccess + id
+		if r := CreateUser(root, acc, iamS1, "userplus", iamUID, iamGID); !r.OK() {
+			c.Inconclusive("create user: %v", r)
+			return out
+		}
+		ucl := root.With(s3c.Creds{Access: acc, Secret: iamS1})
+		bkt := "iamup" + id
+		if r := CreateBucket(ucl, bkt); !r.OK() {
+			c.Inconclusive("create bucket as the user: %v", r)
+			return out
+		}
+		body := Content("c17-up-"+id, 66<<10+i)
+		wire := ucl.Build(s3c.Req{Method: "PUT", Path: "/" + bkt + "/obj", Body: body, Mode: s3c.StreamSigned,
+			Chunks: []int{20 << 10, 20 << 10, len(body) - 40<<10}}).Bytes()
+		conn, err := net.DialTimeout("tcp4", root.Addr, 5*time.Second)
+		if err != nil {
+			c.Inconclusive("dial: %v", err)
+			return out
+		}
+		conn.SetDeadline(time.Now().Add(20 * time.Second))
+		half := len(wire) / 2
+		conn.Write(wire[:half])
+		time.Sleep(30 * time.Millisecond)
+		l := linLine{Init: "a1", Scenario: "http-secret-change-during-upload", Config: "streaming upload in flight", Mode: "acct"}
+		l.H = append(l.H, mut("upd", "a2", UpdateUserSecret(root, acc, iamS2), 1))
+		conn.Write(wire[half:])
+		if tc, ok := conn.(*net.TCPConn); ok {
+			tc.CloseWrite()
+		}
+		io.Copy(io.Discard, conn)
+		conn.Close()
+		l.H = append(l.H, read(id, 3), read(id, 5))
+		out = append(out, l)
+		c.Eval("http-secret-change-" + id)
 	}
 	// concurrent admin mutations on distinct accounts: none is lost, the store parses
 	var wg sync.WaitGroup
